@@ -526,7 +526,8 @@ class ChangePoint(CovarianceFunction):
         [self.hyperpar_labels.extend(L) for L in label_groups]
 
         # store x-data from the dimension of the change-point
-        self.x_cp = asarray(x, dtype=float)[:, self.axis]
+        # (a copy: asarray of a float array is that array, and the column is a view of it)
+        self.x_cp = asarray(x, dtype=float)[:, self.axis].copy()
         assert self.n_params == len(self.hyperpar_labels)
         # (bounds assembled for another number of hyper-parameters are assembled afresh)
         if self.bounds is not None and len(self.bounds) != self.n_params:
